@@ -345,6 +345,19 @@ where
         let check_time =
             start_timer!(|| format!("Checking {} evaluation proofs", commitments.len()));
 
+        if points.len() != commitments.len()
+            || values.len() != commitments.len()
+            || proofs.len() != commitments.len()
+        {
+            return Err(Error::IncorrectInputLength(format!(
+                "Expected {} points, values and proofs, found {}, {} and {}",
+                commitments.len(),
+                points.len(),
+                values.len(),
+                proofs.len()
+            )));
+        }
+
         let mut total_c = <E::G1>::zero();
         let mut total_w = <E::G1>::zero();
 
